@@ -28,6 +28,8 @@ def run(tier, wd):
     rows = vc.run_cases(rep, wd, binpath, cases, abstracts, "c06")
     nontriv = 0
     for case, a, clean, dev, r in rows:
+        if r.get("skipped"):
+            continue
         if r.get("hang") or r.get("crash"):
             rep.violation("%s: %s" % (vc.describe(case), r), {"engine": "values", "case": case, "expected": None})
             continue
